@@ -26,7 +26,7 @@ ASSUMPTIONS = [
     "prefixes bound to one URI; carriage returns",
     "generator and expat reader must agree on the infoset, otherwise the case is inconclusive",
 ]
-REQUIRED = ["imports_after_in_place_edit_of_an_earlier_import", "imports_raw", "imports_clean", "imports_collapse", "roundtrips", "docs_with_comments", "docs_with_redeclaration",
+REQUIRED = ["documents_larger_than_one_mebibyte", "imports_after_in_place_edit_of_an_earlier_import", "imports_raw", "imports_clean", "imports_collapse", "roundtrips", "docs_with_comments", "docs_with_redeclaration",
             "docs_with_xml_attr", "docs_with_qualified_attr", "docs_with_cdata", "literal_hits", "blank_kept", "trimmed_to_none"]
 EXHAUSTIVE = {"quick": False, "thorough": False}
 
@@ -219,8 +219,31 @@ def judge(ctx, doc, text, clean, collapse, literals):
     emlkit.discard(t, t2)
 
 
+def big_documents(ctx):
+    """Documents of a little over one MiB in which text and tails (blank ones and real ones) lie across the offsets 2**16 ... 2**20 -
+    where an importer that reads block by block has its seams."""
+    for d in (-3, 0):
+        parts, size = ["<abstract>"], len("<abstract>")
+        for k in range(16, 21):
+            tgt = 2 ** k + d
+            open_, close_ = "<para>", "</para><emphasis>e</emphasis>"
+            fill = tgt - size - len(open_) - len(close_)
+            parts.append(open_ + ("word " * (fill // 5 + 1))[:fill] + close_)
+            size = tgt
+            tail = " between May and August. " if k % 2 == 0 else "   \n  "
+            parts.append(tail)
+            size += len(tail)
+        parts.append("<para>end</para></abstract>")
+        text = "".join(parts)
+        ctx.count("documents_larger_than_one_mebibyte")
+        for clean, collapse in ((False, False), (True, False), (True, True)):
+            ctx.case(judge, ctx, None, text, clean, collapse, (), seconds=300.0)
+
+
 def run(ctx, params):
     rng = ctx.rng
+    if params.get("salt", 0) == 0:
+        big_documents(ctx)
     # the usual workflow normalises a document before importing it: whatever that call does to the process must not change
     # how later documents are imported
     try:
